@@ -24,7 +24,7 @@ def _ad(s):
 class FakeSock:
     def __init__(self):
         self.sent = bytearray()
-        self.rx = None              # what the next recv returns (None = would block)
+        self.rxq = []               # what the next recv calls return, in order (empty = would block)
         self.closed = False
 
     def setblocking(self, f):
@@ -37,10 +37,9 @@ class FakeSock:
         self.closed = True
 
     def recv(self, n):
-        if self.rx is None:
+        if not self.rxq:
             raise socket.error(errno.EWOULDBLOCK, 'would block')
-        d, self.rx = self.rx, None
-        return d
+        return self.rxq.pop(0)
 
     def send(self, data):
         self.sent.extend(bytes(data))
@@ -101,7 +100,10 @@ class BlkDriver:
                 if self.cur is None or self.cur.closed:
                     rec['delivered'] = False
                 else:
-                    self.cur.rx = unjbytes(ev[1])
+                    self.cur.rxq.append(unjbytes(ev[1]))
+                    if len(ev) > 2 and ev[2] == 'eof':
+                        # the peer closed right behind these bytes: the EOF is already pending when the reactor wakes up
+                        self.cur.rxq.append(b'')
                     try:
                         self._select_once(True)
                     except Exception as e:  # noqa
@@ -112,8 +114,12 @@ class BlkDriver:
                 if self.cur is None:
                     rec['delivered'] = False
                 else:
-                    self.cur.rx = b''
-                    self._select_once(True)
+                    if b'' not in self.cur.rxq:
+                        self.cur.rxq.append(b'')
+                    for _ in range(4):
+                        if not self.cur.rxq or getattr(self.r, 'sock', None) is not self.cur:
+                            break
+                        self._select_once(True)
                     self.cur = None
             elif k == 'sub':
                 self.session.subscribe(unjbytes(ev[1]).decode())
@@ -263,6 +269,8 @@ def gen_events(rng, early=None):
             ev.append(['data', jbytes(ch)])
             fed += len(ch)
             app(early or fed >= info_len)
+        if ev[-1][0] == 'data' and rng.random() < 0.6:
+            ev[-1].append('eof')        # the connection is closed right behind the last bytes: data and EOF pending together
         ev.append(['lost'])
         if rng.random() < 0.3:
             app()
